@@ -141,7 +141,9 @@ func (g *c14Gen) qcall(shape string) (string, bool) {
 	return "", false
 }
 
-func (g *c14Gen) intLit() string { return rapid.SampledFrom([]string{"0", "1", "42", "-7"}).Draw(g.t, "int") }
+func (g *c14Gen) intLit() string {
+	return rapid.SampledFrom([]string{"0", "1", "42", "-7"}).Draw(g.t, "int")
+}
 
 // ret produces statements that end in a return for the given shape
 func (g *c14Gen) ret(shape string) string {
@@ -292,9 +294,15 @@ func (g *c14Gen) ret(shape string) string {
 			c, ok := g.call("int")
 			g.feats["bare-return"] = true
 			return or("v = "+c+"\nreturn", ok, "return")
-		default:
+		case 8:
 			g.feats["bare-return"] = true
 			return "err = E{Code: 5}\nreturn"
+		default:
+			// a closure argument with its own named result and a bare return, assigning the captured outer results
+			g.feats["bare-return"] = true
+			g.feats["closure-with-named-results-in-function-with-named-results"] = true
+			c, ok := g.call("named")
+			return or("err = with(func() (err error) {\nv, err = "+c+"\nreturn\n})\nreturn", ok, "err = with(func() (err error) {\nv, err = Impl{}.One(), Impl{}.Err()\nreturn\n})\nreturn")
 		}
 	default: // two
 		g.feats["named-results"] = true
